@@ -257,7 +257,21 @@ func checkC19(p *Prog, r *Report) {
 	// D4 custom data untouched
 	aol := buildAolModel(p)
 	did := buildDidModel(p)
+	rawMut := map[*ssa.Function]string{}
+	for _, so := range p.StoreOps() {
+		if so.Op != "Set" && so.Op != "Delete" {
+			continue
+		}
+		for _, mod := range []string{"x/aol", "x/did", "x/pnft"} {
+			if strings.HasPrefix(so.KeyRoot, mod+"/keeper.") {
+				rawMut[so.Fn] = strings.ToUpper(strings.TrimPrefix(mod, "x/")) + " (" + so.Op + " in " + FuncName(so.Fn) + ")"
+			}
+		}
+	}
 	isMut := func(f *ssa.Function) (string, bool) {
+		if w, ok := rawMut[f]; ok {
+			return w, true
+		}
 		if a := aol.acc[f]; a != nil && (a.Op == "Set" || a.Op == "Delete") {
 			return "AOL", true
 		}
